@@ -260,6 +260,10 @@ func concurrentRegistryHistory(seed int64, clients, opsPerClient int) []porcupin
 	}
 	var hist []porcupine.Operation
 	var wg sync.WaitGroup
+	// CancelOlderThan cancels its contexts one after the other, so an Err() observation taken *while* it runs may
+	// see some of them cancelled and others not yet: that is not a defect (the guarantee is about what holds once it
+	// returned) and it is not linearizable. Observations therefore never overlap a cancel / shutdown call; For calls do.
+	var obs sync.RWMutex
 	for cl := 0; cl < clients; cl++ {
 		wg.Add(1)
 		go func(cl int) {
@@ -297,9 +301,13 @@ func concurrentRegistryHistory(seed int64, clients, opsPerClient int) []porcupin
 						out.Ctx = idOf(ctx)
 					}
 				case 1:
+					obs.Lock()
+					call = atomic.AddInt64(&clock, 1)
 					vc.CancelOlderThan(state.NewHeightView(primitives.BlockHeight(op.H), primitives.View(op.V)))
 					out.Ok = true
 				case 2:
+					obs.Lock()
+					call = atomic.AddInt64(&clock, 1)
 					vc.Shutdown()
 					out.Ok = true
 				case 3:
@@ -307,9 +315,17 @@ func concurrentRegistryHistory(seed int64, clients, opsPerClient int) []porcupin
 					mu.Lock()
 					c := byId[in.Ctx]
 					mu.Unlock()
+					obs.RLock()
+					call = atomic.AddInt64(&clock, 1)
 					out.Cancelled = c.Err() != nil
 				}
 				ret := atomic.AddInt64(&clock, 1)
+				switch op.Kind {
+				case 1, 2:
+					obs.Unlock()
+				case 3:
+					obs.RUnlock()
+				}
 				mu.Lock()
 				hist = append(hist, porcupine.Operation{ClientId: cl, Input: in, Output: out, Call: call, Return: ret})
 				mu.Unlock()
